@@ -149,20 +149,25 @@ CHECKS = {
     ),
     'C10': dict(
         ref='5.10',
-        text='Theorems in coq/Properties/C10.v (partial): every range recorded when a paragraph is built is (first line with '
-             'content, last line) of one of its fields with a non-empty value; for a field with increasing line numbers both '
-             'ends are numbers of its own lines (so within 1..#lines), start <= end, no line of the field lies after end and no '
-             'line with content before start; line numbers increase strictly over all fields of all paragraphs (C05), so '
-             'ranges of different fields are disjoint and increasing; k blank lines at the top shift every line number of the '
-             'parsed groups by exactly k and change nothing else (the parser is proved parametric in the numbering), and - for '
-             'every text in which each paragraph has a field with a value - shift every recorded range of the WHOLE copyright '
-             'object by exactly k, through renaming, merged unknown paragraphs and folded licenses, changing nothing else. NOT '
-             'assembled into one statement: bounds and disjointness of the ranges of the FINAL object across merged and folded '
-             'paragraphs (the composition itself is proved: a merged paragraph spans the merged ones - smallest start, largest '
-             'end, both attained; a folded license runs from its License field, or the start of the unknown paragraph, to the '
-             'end of the unknown paragraph); decided by co-execution of the complete model (ranges included) '
-             'with copyright.py on texts biased to the recovery paths, each also with 1/2/5 blank lines prepended, and by the '
-             'executable statement (bounds, non-blank ends, words inside the range, disjoint and increasing, shift).',
+        text='Theorems in coq/Properties/C10.v (partial): for EVERY text and the FINAL copyright object (after renaming of '
+             'duplicates, merging of unknown paragraphs and folding of free text into an empty license) the ranges recorded for '
+             'fields with a non-empty value, read paragraph after paragraph in the order of line_numbers_by_field, are strictly '
+             'increasing and disjoint (end of one < start of the next), lie within 1..#lines with start <= end, and each starts on '
+             'the first content line of a field with a value and ends on the last line of such a field (C10_final_object, by '
+             'invariants carried through merge_unknown and fold_license with no bound on the number of paragraphs); every range '
+             'recorded when a paragraph is built is (first line with content, last line) of one of its fields with a non-empty '
+             'value; for a field with increasing line numbers both ends are numbers of its own lines, no line of the field lies '
+             'after end and no line with content before start; line numbers increase strictly over all fields of all paragraphs '
+             '(C05); k blank lines at the top shift every line number of the parsed groups by exactly k and change nothing else, '
+             'and - for every text in which each paragraph has a field with a value - shift every recorded range of the WHOLE '
+             'object by exactly k, through renaming, merged unknown paragraphs and folded licenses; a merged paragraph spans '
+             'the merged ones (smallest start, largest end, both attained); a folded license runs from its License field, or the '
+             'start of the unknown paragraph, to the end of the unknown paragraph. NOT assembled into one statement: that every '
+             'WORD of a value of the final object occurs in lines start..end (proved per field for the lines of the field), and '
+             'the shift law for paragraphs in which no field has a value; both decided by co-execution of the complete model '
+             '(ranges included) with copyright.py on texts biased to the recovery paths, each also with 1/2/5 blank lines '
+             'prepended, and by the executable statement (bounds, non-blank ends, words inside the range, disjoint and '
+             'increasing, shift).',
         note=TRUST,
         technique='Rocq proof (partial) + differential co-execution and statement checking against the Python code',
     ),
